@@ -1103,7 +1103,7 @@ def r_search_loop(m, rep, R):
     ok = lo == LIT(0) and step and len(cs) == 3 and budget in cs and more in cs and any(x in cs for x in nonempty)
     rep.check(ok, R, _w(m.main_loop.line), 'search:guard',
               'search runs while steps < max_step and goal.size() < nbest and the agenda is non-empty',
-              'search loop guard is %s' % cs)
+              'search loop guard is %s, counting from %s%s' % (cs, show(lo), ': the first step already counts as %s, so the search gives up one step before the budget is used up -- a sentence whose best parse is completed by the last allowed step is reported as failed' % show(lo) if lo not in (LIT(0),) and budget in cs else ''))
     fin_if = sh['fin_if']
     ok = False
     if fin_if is not None:
